@@ -22,7 +22,10 @@ from ..core import short_exc  # noqa: E402
 from . import nfdag  # noqa: E402
 
 PROP = "C19"
-EPILOGUE_ITEMS = 2  # items are heavy (whole BFS each)
+# no epilogue pass: every invocation of the script already runs in a fresh module object (a re-run is a new process), the
+# stub and the sandbox are per work item, so no state of the code under test survives from one work item to the next -
+# and on a broken script one BFS can take minutes, which the sequential pass would double
+EPILOGUE = False
 LEVEL = "fault_enumeration"
 ENGINE = "E4-crash-points"
 TECHNIQUE = "crash-point enumeration: explicit-state BFS over directory trees, one transition per (script execution, crash point), crash points = every filesystem mutation of the script and every order ideal of the pipeline's publication DAG"
@@ -43,13 +46,13 @@ RULE = (
 )
 BOUNDS = {
     "quick": {"max_crashes_per_history": "unbounded (fixpoint)", "state_cap_per_config": 2500, "unit_of_execution": "one invocation of the script's main() (its whole driver loop)",
-              "configs": "retrospective (batch,plates,chains,chunks) in {(1,3,1,1),(2,4,1,1),(3,5,1,1),(2,3,2,2)}; prospective (batch,iterations) in {(1,2),(2,2),(3,2)} with (1,1) and (2,2,(2,2)); plus two crash-bounded long runs (batch 1 / 13 plates, batch 2 / 23 plates: every interruption point of every launch, <= 1 interruption per history)"},
+              "configs": "retrospective (batch,plates,chains,chunks) in {(1,3,1,1),(2,4,1,1),(3,5,1,1),(2,3,2,2)}; prospective (batch,iterations) in {(1,2),(2,2),(3,2)} with (1,1) and (2,2,(2,2)); plus one crash-bounded long run (batch 1 / 13 plates: every interruption point of every launch, <= 1 interruption per history)"},
     "thorough": {"max_crashes_per_history": "unbounded (fixpoint)", "state_cap_per_config": 40000,
-                 "configs": "batch 1..4 x plates 2..5 x {(1,1),(2,2)} both modes; plus batch 11 / 13 plates (two-digit plate dirs); plus the two crash-bounded long runs of the quick tier"},
+                 "configs": "batch 1..4 x plates 2..5 x {(1,1),(2,2)} both modes; plus batch 11 / 13 plates (two-digit plate dirs); plus two crash-bounded long runs (batch 1 / 13 plates, batch 2 / 23 plates)"},
 }
 ASSUMPTIONS = [
     "Nextflow publishes each output file atomically, in some order compatible with the task DAG of the .nf files (no torn files, no publication overtaking an upstream task)",
-    "an interruption kills the script and the pipeline together (BaseException at the crash point)",
+    "an interruption ends the script and the pipeline together; it is modelled as a kill (nothing of the script runs afterwards) and - only when the script's source contains a construct that could react to it (except BaseException / KeyboardInterrupt / bare except / finally / atexit / signal) - also as an interrupt whose handlers run to completion",
     "the user reacts to 'Consider deleting this directory ...: <path>' by deleting exactly that directory, atomically",
     "file contents are abstract but functional (screens carry their observed plate set; thetas/distances/scores carry digests of their inputs)",
 ]
@@ -68,6 +71,20 @@ ADVICE_RE = re.compile(r"Consider deleting this directory[^:]*:\s*(\S+)")
 
 # ------------------------------------------------------------------ script under test
 _SCRIPT = {}
+
+
+# Constructs through which the script itself could react to an interruption (clean-up handlers).  The interruption is
+# modelled twice: "kill" (nothing of the script runs after the interruption point: SIGKILL, power loss) and "interrupt"
+# (a BaseException is raised once at the interruption point and the script's own handlers / finally blocks run: Ctrl-C,
+# SIGTERM turned into an exception).  Without any such construct in the source the two coincide, and only "kill" is run.
+_HANDLER_RE = re.compile(r"except\s+\(?[^:\n]*\b(BaseException|KeyboardInterrupt|SystemExit)\b|except\s*:|finally\s*:|\batexit\b|\bsignal\.")
+
+
+def script_has_handlers():
+    if "handlers" not in _SCRIPT:
+        with open(os.path.join(env.REPO, "nextflow", "scripts", "batchie.py")) as f:
+            _SCRIPT["handlers"] = bool(_HANDLER_RE.search(f.read()))
+    return _SCRIPT["handlers"]
 
 
 def script():
@@ -364,7 +381,8 @@ class Sandbox:
         fake = FakeNextflow(self.dag_source, self.root)
         if crash and crash[0] == "pipeline":
             fake.crash = (crash[1], crash[2], crash[3])
-        counter = {"n": 0, "in_pipeline": False}
+        interrupt = bool(crash) and crash[-1] == "int"
+        counter = {"n": 0, "in_pipeline": False, "dead": False, "fired": False}
         at_launch = []
         real = {"mkdir": os.mkdir, "rmdir": os.rmdir, "unlink": os.unlink}
         root_prefix = self.base + os.sep
@@ -377,7 +395,11 @@ class Sandbox:
                     p = path if isinstance(path, str) else os.fsdecode(path)
                     relevant = k.get("dir_fd") is not None or os.path.abspath(p).startswith(root_prefix)
                     if relevant:
-                        if crash and crash[0] == "script" and counter["n"] == crash[1]:
+                        if counter["dead"]:
+                            raise Crash("the process is gone")  # kill: nothing of the script runs after the interruption
+                        if crash and crash[0] == "script" and counter["n"] == crash[1] and not counter["fired"]:
+                            counter["fired"] = True
+                            counter["dead"] = not interrupt
                             raise Crash(f"interrupted before {name} #{counter['n']}")
                         counter["n"] += 1
                         if counter["n"] > 400 * self.cfg["plates"] + 2000:
@@ -389,10 +411,18 @@ class Sandbox:
         def check_call(cmd, *a, **k):
             if len(fake.launches) > 2 * self.cfg["plates"] + 4:
                 raise Runaway(f"{len(fake.launches)} pipeline launches in one invocation for {self.cfg['plates']} plates")
+            if counter["dead"]:
+                raise Crash("the process is gone")
             counter["in_pipeline"] = True
             at_launch.append(counter["n"])
             try:
-                return fake.run(cmd, *a, **k)
+                rv = fake.run(cmd, *a, **k)
+                # the pipeline has returned: what is complete now counts as completed, whatever the script does next
+                fake.launches[-1]["tree_after"] = capture(self.root)
+                return rv
+            except Crash:
+                counter["dead"] = not interrupt
+                raise
             finally:
                 counter["in_pipeline"] = False
 
@@ -516,6 +546,8 @@ def judge_launches(sb, cfg, r, ref, violate, hist, protected_before):
                 diff = {k: (nl.get(k), ref["launches"][st].get(k)) for k in nl if nl.get(k) != ref["launches"][st].get(k)}
                 violate("inputs-differ", f"step {st} launched with inputs that differ from the uninterrupted run: {diff}", hist)
                 bad = True
+            if L.get("tree_after") is not None:
+                ever_complete |= complete_steps(L["tree_after"], ref)
     return bad, ever_complete
 
 
@@ -606,7 +638,7 @@ def absolute_launch_check(sb, cfg, tree, L):
 
 
 def normalize_launch(sb, L):
-    d = {k: v for k, v in L.items() if k != "tree_before"}
+    d = {k: v for k, v in L.items() if k not in ("tree_before", "tree_after")}
     d["outdir"] = os.path.relpath(L["outdir"], sb.root)
     return d
 
@@ -639,24 +671,30 @@ def crash_plans(base, all_launches=False):
             plans.append(("pipeline", li, I, False))
             if any(nd[0] not in I and set(nd[2]) <= I for nd in nodes):
                 plans.append(("pipeline", li, I, True))
+    if script_has_handlers():
+        plans = plans + [pl + ("int",) for pl in plans]
     return plans
 
 
 def plan_label(pl):
     if pl is None:
         return "run"
+    mode = "~int" if pl[-1] == "int" else ""
     if pl[0] == "script":
-        return f"crash@fs{pl[1]}"
-    return f"crash@pipeline{pl[1]}{'+workdir-ahead' if pl[3] else ''}{sorted(pl[2])}"
+        return f"crash@fs{pl[1]}{mode}"
+    return f"crash@pipeline{pl[1]}{'+workdir-ahead' if pl[3] else ''}{sorted(pl[2])}{mode}"
 
 
 def parse_label(label):
     if label.startswith("run"):
         return None
+    mode = ()
+    if label.endswith("~int"):
+        label, mode = label[:-4], ("int",)
     if label.startswith("crash@fs"):
-        return ("script", int(label[len("crash@fs"):]))
+        return ("script", int(label[len("crash@fs"):])) + mode
     m = re.match(r"crash@pipeline(\d+)(\+workdir-ahead)?(\[.*\])$", label)
-    return ("pipeline", int(m.group(1)), frozenset(json.loads(m.group(3).replace("'", '"'))), bool(m.group(2)))
+    return ("pipeline", int(m.group(1)), frozenset(json.loads(m.group(3).replace("'", '"'))), bool(m.group(2))) + mode
 
 
 def explore_config(cfg, col, tier, dag_source):
@@ -793,7 +831,7 @@ def configs(tier):
             out.append({"mode": "retrospective", "batch": b, "plates": p, "chains": c, "chunks": k})
         for (b, it, c, k) in [(1, 2, 1, 1), (2, 2, 1, 1), (3, 2, 1, 1), (2, 2, 2, 2)]:
             out.append({"mode": "prospective", "batch": b, "plates": 2 + b * it, "chains": c, "chunks": k, "iterations": it})
-        out += DEEP
+        out += DEEP[:1]
     else:
         for b in (1, 2, 3, 4):
             for p in (2, 3, 4, 5):
